@@ -1,6 +1,7 @@
 //! jlh: correspondence harness.  Generates cases from one seed, runs them against the
 //! implementation built from /repo's working tree, and writes them - inputs and observed
 //! outputs - as Gallina terms for the Coq side to check.
+mod boundary;
 mod coqfmt;
 mod corpus;
 mod gens;
@@ -150,7 +151,7 @@ fn write_shards(prop: &str, out_dir: &str, emitted: &[Emitted], shards: usize) -
         let lo = k * per;
         let hi = ((k + 1) * per).min(n);
         let mut f = std::io::BufWriter::new(std::fs::File::create(format!("{}/cases_{}_{}.v", out_dir, prop, k))?);
-        writeln!(f, "From Coq Require Import List ZArith NArith Floats.SpecFloat.\nFrom JL Require Import Base.Json Base.Monad Spec.Specs Corr.\nImport ListNotations.\nLocal Open Scope N_scope.")?;
+        writeln!(f, "From Coq Require Import List ZArith NArith Floats.SpecFloat.\nFrom JL Require Import Base.Json Base.Monad Model.Boundary Spec.Specs Corr.\nImport ListNotations.\nLocal Open Scope N_scope.")?;
         writeln!(f, "Definition cases : list case := [")?;
         for (j, e) in emitted[lo..hi].iter().enumerate() {
             let sep = if lo + j + 1 == hi { "" } else { ";" };
@@ -342,6 +343,22 @@ fn gen_main(args: &[String]) {
                 });
             }
         }
+        "C18" => {
+            for e in boundary::gen_c18(&mut rng, count.min(if thorough { 20000 } else { 1500 }), thorough) {
+                emitted.push(Emitted { work_term: e.work_term, obs_term: e.obs_term, tag: e.tag, record: e.record, crashed: e.crashed });
+            }
+        }
+        "C19" => {
+            let stage = get_arg(args, "--stage", "cases");
+            if stage == "cases" {
+                boundary::gen_c19_cases(&mut rng, count.min(if thorough { 20000 } else { 1500 }), &format!("{}/py_cases.jsonl", out_dir));
+                println!("{{\"stage\":\"cases\"}}");
+                return;
+            }
+            for e in boundary::emit_c19(&format!("{}/py_results.jsonl", out_dir)) {
+                emitted.push(Emitted { work_term: e.work_term, obs_term: e.obs_term, tag: e.tag, record: e.record, crashed: e.crashed });
+            }
+        }
         other => {
             eprintln!("no generator for {}", other);
             std::process::exit(2);
@@ -364,7 +381,9 @@ fn gen_main(args: &[String]) {
         *dist.entry(t).or_insert(0) += 1;
         let oc = if e.obs_term.starts_with("(ObsOk") { "ok" } else if e.obs_term.starts_with("(ObsErr") { "err" }
             else if e.obs_term.starts_with("(ObsHelper") { "helper" } else if e.obs_term.starts_with("(ObsPair") { "pair" }
-            else if e.obs_term.starts_with("(ObsMulti") { "multi" } else { "crash" };
+            else if e.obs_term.starts_with("(ObsMulti") { "multi" }
+            else if e.obs_term.starts_with("(ObsCli [") && e.obs_term.ends_with(" 0)") { "exit0" } else if e.obs_term.starts_with("(ObsCli") { "exit-nonzero" }
+            else if e.obs_term.starts_with("(ObsPy (PyReturn") { "returned" } else if e.obs_term.starts_with("(ObsPy PyValueError") { "ValueError" } else { "crash" };
         *outcomes.entry(oc.to_string()).or_insert(0) += 1;
         if distinct.insert(e.work_term.clone()) {
             // non-trivial: not a bare scalar literal as the rule
